@@ -49,6 +49,15 @@ Next == \/ \E t \in Targets : Select(t)
 Spec == Init /\ [][Next]_vars
 
 Fresh == hist = <<>> \/ hist[Len(hist)].op # "select" \/ lastPar = par
+
+\* Besides the memo, a neighbourhood object owns WORK ARRAYS filled while one target is processed (distances,
+\* sector of each candidate, number of candidates and of retained samples per angular sector): "depends on the
+\* target and on the current parameters only" also means that every recomputation starts from clean work arrays.
+\* They only matter when the selection uses them: the histories are therefore replayed in two concretisations,
+\*   "plain"   : one sector, a handful of samples (the memo alone is exercised)
+\*   "sectors" : 8 angular sectors with a binding nmaxi and unevenly filled sectors (a central and a corner
+\*               target): a counter left by the previous target changes which samples are retained.
+Layouts == {"plain", "sectors"}
 EmitScripts == (hist = <<>> \/ hist[Len(hist)].op # "select")
-               \/ PrintT(ToJson([hist |-> hist, predicted_fresh |-> Fresh]))
+               \/ \A lay \in Layouts : PrintT(ToJson([layout |-> lay, hist |-> hist, predicted_fresh |-> Fresh]))
 =============================================================================
